@@ -221,7 +221,7 @@ fn op_hash(bh: &ScriptBH, t: &[&str]) -> u64 {
     if t[0] == "hll.addh" {
         v
     } else {
-        bh.hash_words(&[v])
+        bh.hash_one_words(&[v])
     }
 }
 
